@@ -118,6 +118,29 @@ func flashCookie(msgs ...[4]string) string {
 	return b.String()
 }
 
+// flashCookieMin: messages that carry only some of the four fields (the decoder assigns what is
+// present; the rest must read as zero: level 0, not an old input). fields: "key", "value", "old".
+func flashCookieMin(msgs ...map[string]string) string {
+	str := func(s string) string { return string([]byte{0xa0 | byte(len(s))}) + s }
+	var b strings.Builder
+	b.WriteByte(0x90 | byte(len(msgs)))
+	for _, m := range msgs {
+		b.WriteByte(0x80 | byte(len(m)))
+		for _, f := range []string{"key", "value", "old"} {
+			v, ok := m[f]
+			switch {
+			case !ok:
+			case f == "old":
+				b.WriteString(str("isOldInput"))
+				b.WriteByte(0xc3)
+			default:
+				b.WriteString(str(f) + str(v))
+			}
+		}
+	}
+	return b.String()
+}
+
 type bodyDoc struct {
 	Name  string   `json:"name" xml:"name" cbor:"name"`
 	Tags  []string `json:"tags" xml:"tags" cbor:"tags"`
